@@ -558,6 +558,39 @@ class Ctx:
             self.solver.set('timeout', self.timeout_ms)
         return None
 
+    def _fallback_model(self):
+        """a concrete point of the current path condition (non-integral values preferred) for the concrete fallback run"""
+        try:
+            self.solver.set('timeout', 3000)
+            m = None
+            vs = list(self.vars.values())
+            self.solver.push()
+            for i, v in enumerate(vs):
+                if not v.is_int():
+                    k = z3.Int(f"__k{i}")
+                    self.solver.add(v == z3.ToReal(k) + z3.RealVal('1/2'), k >= -9, k <= 9)
+            if self.solver.check() == z3.sat:
+                m = self.solver.model()
+            self.solver.pop()
+            if m is None and self.solver.check() == z3.sat:
+                m = self.solver.model()
+            if m is None:
+                return None
+            out = {}
+            for name, t in self.vars.items():
+                v = m.eval(t, model_completion=True)
+                if z3.is_int_value(v):
+                    out[name] = v.as_long()
+                elif z3.is_rational_value(v):
+                    out[name] = v.numerator_as_long() / v.denominator_as_long()
+                else:
+                    return None
+            return out
+        except z3.Z3Exception:
+            return None
+        finally:
+            self.solver.set('timeout', self.timeout_ms)
+
     def _record(self, label, model, detail, sig, claim=None):
         key = (label, tuple(sorted((k, str(v)) for k, v in sig.items())))
         if self.finding_counts.get(key, 0) >= 3:
@@ -628,6 +661,8 @@ def explore(fn, args=(), timeout_ms=20000, max_paths=None, time_budget=None, max
     t0 = time.time()
     truncated = None
     reach = {}
+    fallbacks = []
+    fallback_seen = {}
     while True:
         c._start_path()
         try:
@@ -644,6 +679,13 @@ def explore(fn, args=(), timeout_ms=20000, max_paths=None, time_budget=None, max
             c.aborted += 1
         except Unsupported as e:
             c.inconclusive.append((f"unsupported: {e}", list(c.choices)))
+            key = str(e)[:60]
+            if fallback_seen.get(key, 0) < 2:
+                fallback_seen[key] = fallback_seen.get(key, 0) + 1
+                fb = c._fallback_model()
+                if fb is not None:
+                    fallbacks.append({'reason': str(e)[:200], 'choices': list(c.choices), 'values': fb,
+                                      'labels': list(c.labels), 'notes': _jsonable(c.notes)})
         except z3.Z3Exception as e:
             c.inconclusive.append((f"z3: {e}", list(c.choices)))
         for lab in c.notes.get('_reach', ()):
@@ -666,7 +708,7 @@ def explore(fn, args=(), timeout_ms=20000, max_paths=None, time_budget=None, max
             'inconclusive': [(r, ch) for r, ch in c.inconclusive[:20]], 'n_inconclusive': len(c.inconclusive),
             'findings': [dict(f) for f in c.findings], 'samples': c.samples, 'truncated': truncated,
             'finding_counts': {k[0] + str(dict(k[1])): v for k, v in c.finding_counts.items()},
-            'reach': reach, 'wall_s': round(time.time() - t0, 3)}
+            'reach': reach, 'wall_s': round(time.time() - t0, 3), 'fallbacks': fallbacks}
 
 
 def replay(fn, args, choices, values):
